@@ -505,3 +505,47 @@ R.spec(GD, "_GroupDecomposedSearchSpace.calculate", props=["C17"], types={"study
                     "F:_SearchSpaceGroup._search_spaces"])},
        modifies=["S:*:set<str>", "L:*", "D:*:dict<str,ref:BaseDistribution>", "G:is_tuple",
                  "F:_SearchSpaceGroup._search_spaces", "F:_GroupDecomposedSearchSpace._study_id"])
+
+
+# --- IntersectionSearchSpace.calculate: the class keeps the ghost invariant of _calculate across calls ---------------------------
+import optuna.search_space.intersection as _is  # noqa: E402
+R.classes.update({"IntersectionSearchSpace": _is.IntersectionSearchSpace})
+R.schema("IntersectionSearchSpace", {"_cached_trial_number": "int", "_search_space": "dict[str, BaseDistribution] | None",
+                                     "_study_id": "int | None", "_include_pruned": "bool"})
+
+
+@R.specfunc()
+def study_trials(eng, st, study):
+    """Ghost: the list Study.get_trials(deepcopy=False) returns now (all trials of the study, ordered by number)."""
+    return SV(KList(KRef("FrozenTrial")), uf("study_trials", I, I)(study.term))
+
+
+R.spec("optuna/study/study.py", "Study.get_trials", trusted=True, variant="all", returns_kind="list[FrozenTrial]",
+       types={"states": "list[TrialState] | None"},
+       cases=[case("ok", ensures=["result is study_trials(self)", "sorted_numbers(result)"])],
+       note="assumed (C01): get_trials(deepcopy=False) lists the study's trials ordered by number")
+
+R.spec(IS, "IntersectionSearchSpace.calculate", props=["C17"], types={"study": "Study"}, returns_kind="dict[str, BaseDistribution]",
+       requires=["self._cached_trial_number >= -1", "sorted_numbers(study_trials(study))",
+                 # the ghost invariant the previous call established, read against the study's CURRENT trials (history
+                 # assumption: finished trials never change, so the accounted set is still a set of finished trials)
+                 "acc_ok(study_trials(study), self._include_pruned, self._cached_trial_number)",
+                 "(self._search_space is None) == (not some_acc())",
+                 "implies(self._search_space is not None, ss_sound_acc(self._search_space, study_trials(study), self._include_pruned))",
+                 "implies(self._search_space is not None, ss_complete_acc(self._search_space, study_trials(study), self._include_pruned))"],
+       cases=[case("other-study", when="self._study_id is not None and self._study_id != study._study_id", raises="ValueError"),
+              case("ok", ensures=[
+                  "fresh(result)",
+                  # what is returned is the from-scratch intersection over the study's current trials ...
+                  "ss_sound_all(result, study_trials(study), self._include_pruned)",
+                  "implies(some_contributes(study_trials(study), self._include_pruned), ss_complete_all(result, study_trials(study), self._include_pruned))",
+                  "implies(not some_contributes(study_trials(study), self._include_pruned), len(result) == 0)",
+                  # ... and the object again satisfies the invariant, with every finished trial of interest accounted for
+                  "self._cached_trial_number >= -1 and cursor_ok(study_trials(study), self._cached_trial_number)",
+                  "(self._search_space is None) == (not some_contributes(study_trials(study), self._include_pruned))",
+                  "implies(self._search_space is not None, ss_sound_all(self._search_space, study_trials(study), self._include_pruned))",
+              ])],
+       call_variants={"Study.get_trials": "all"},
+       modifies=["D:*:dict<str,ref:BaseDistribution>", "D:*:dict<str,ref:BaseDistribution>@td", "L:*:list<enum:TrialState>", "G:is_tuple",
+                 "F:IntersectionSearchSpace._search_space", "F:IntersectionSearchSpace._cached_trial_number",
+                 "F:IntersectionSearchSpace._study_id", "L:*:list<ref:FrozenTrial>"])
